@@ -15,7 +15,7 @@ usage: par_mutants.py --list <file with one patch path per line> --out <results.
   --first  stop at the first check that fires (enough to decide caught / not caught)
 The scratch directory is removed at the end (worktrees are unregistered with git worktree remove).
 """
-import argparse, json, os, queue, shutil, subprocess, sys, threading, time
+import argparse, json, os, queue, shutil, signal, subprocess, sys, threading, time
 
 HERE = os.path.dirname(os.path.dirname(os.path.abspath(__file__)))
 ALL = "C03 C04 C05 C06 C08 C09 C10 C11 C12 C18 C19"
@@ -23,11 +23,17 @@ ENV = dict(os.environ, CARGO_NET_OFFLINE="true")
 
 
 def sh(cmd, cwd=None, timeout=None, env=None, out=None):
+    # own process group, so that a timeout also ends the grandchildren (test binaries of a hung mutant)
+    p = subprocess.Popen(cmd, cwd=cwd, env=env or ENV, stdout=out or subprocess.DEVNULL, stderr=subprocess.STDOUT,
+                         shell=isinstance(cmd, str), start_new_session=True)
     try:
-        p = subprocess.run(cmd, cwd=cwd, timeout=timeout, env=env or ENV, stdout=out or subprocess.DEVNULL,
-                           stderr=subprocess.STDOUT, shell=isinstance(cmd, str))
-        return p.returncode
+        return p.wait(timeout=timeout)
     except subprocess.TimeoutExpired:
+        try:
+            os.killpg(p.pid, signal.SIGKILL)
+        except ProcessLookupError:
+            pass
+        p.wait()
         return 124
 
 
